@@ -158,6 +158,8 @@ def resolve(w: World, raw, pf: Profile) -> Optional[dict]:
         m.h_id = rid
         op = {"op": "connect", "c": m.idx, "ver": ver, "id": rid, "logger": logger, "daemon": daemon,
               "multi": multi, "name": name, "pid": 1000 + m.idx}
+        if ver != "v1" and name == "" and e % 7 == 3:
+            op["short"] = 1
         if ver != "v1" and e % 6 == 5:
             # CONNECT_V2 names the requested id in its body; a foreign client may put anything into the header's source field
             op["hsrc"] = [0, 7, 150, 42, -1, 99][(e // 6) % 6]
